@@ -269,6 +269,15 @@ def sweep_cases(rnd, idx0):
         if b["ann"] >= b["end"]:
             b["ann"] = b["start"]
         out.append(b)
+    for layout in (1, 2):
+        # two runs of one session on the SAME DEFICIENT multi-year file (a gap), same window and configuration: the second run must end
+        # in the reader's error like the first - an error seen once per session is not an error reported once (seeded C04-18)
+        import copy as _copy
+        a = make_case(rnd, idx0 + len(out), layout, "gap")
+        out.append(a)
+        b = _copy.deepcopy(a)
+        b["idx"], b["share"] = idx0 + len(out), a["idx"]
+        out.append(b)
     return out
 
 
